@@ -103,6 +103,8 @@ def full_exprs(max_leaves: int = 8, *, annotation_safe: bool = False):
     """Every expression form Griffe's builder knows. `annotation_safe`: leave out the forms CPython refuses to compile
     inside a (postponed) annotation or outside a function: walrus, yield, async comprehensions, starred elements."""
 
+    leaf = _names() | _consts()
+
     def extend(sub):
         target = st.sampled_from(("i", "j", "x")).map(lambda n: ["name", n]) | st.just(["tuple", [["name", "i"], ["name", "j"]]])
         gens = st.lists(st.tuples(target, sub, st.lists(sub, max_size=2), st.just(False) if annotation_safe else st.booleans()).map(list), min_size=1, max_size=2)
@@ -127,7 +129,7 @@ def full_exprs(max_leaves: int = 8, *, annotation_safe: bool = False):
                 st.lists(st.tuples(st.sampled_from(("k", "a", "maxsize")) | st.none(), sub).map(list), max_size=2).filter(lambda kws: len({k for k, _ in kws if k}) == len([k for k, _ in kws if k])),
             ).map(list),
             st.tuples(st.just("ifexp"), sub, sub, sub).map(list),
-            st.tuples(st.just("lambda"), _lambda_params(sub), sub if annotation_safe else (sub | sub.map(lambda e: ["yield", e]) | st.just(["yield", None]) | sub.map(lambda e: ["yieldfrom", e]))).map(list),
+            st.tuples(st.just("lambda"), _lambda_params(sub), sub if annotation_safe else (sub | sub | leaf.map(lambda e: ["yield", e]) | st.just(["yield", None]) | leaf.map(lambda e: ["yieldfrom", e]))).map(list),
             st.lists(starred, max_size=3).map(lambda es: ["list", es]),
             st.lists(starred, max_size=3).map(lambda es: ["tuple", es]),
             st.lists(starred, min_size=1, max_size=3).map(lambda es: ["set", es]),
@@ -138,14 +140,17 @@ def full_exprs(max_leaves: int = 8, *, annotation_safe: bool = False):
             st.tuples(st.just("subscript"), sub, index).map(list),
         ]
         if not annotation_safe:
-            forms += [
-                st.tuples(st.just("named"), st.sampled_from(("w", "x")), sub).map(list),
-                (st.none() | sub).map(lambda e: ["yield", e]),
-                sub.map(lambda e: ["yieldfrom", e]),
-            ]
+            # one alternative for the three wrappers (they consume no leaf, so they would otherwise pile up)
+            forms.append(
+                st.one_of(
+                    st.tuples(st.just("named"), st.sampled_from(("w", "x")), sub).map(list),
+                    (st.none() | leaf).map(lambda e: ["yield", e]),
+                    leaf.map(lambda e: ["yieldfrom", e]),
+                ),
+            )
         return st.one_of(forms)
 
-    return st.recursive(_names() | _consts(), extend, max_leaves=max_leaves)
+    return st.recursive(leaf, extend, max_leaves=max_leaves)
 
 
 def safe_values(max_leaves: int = 5):
@@ -365,7 +370,7 @@ def _numpy(kind, rows):
     if kind == "text":
         return ["Some more text about " + rows[0][0] + "."]
     if kind == "deprecated":
-        return [".. deprecated:: 1.0", "    " + rows[0][2].split("\n")[0]]
+        return ["Deprecated", "----------", "1.0", "    " + rows[0][2].split("\n")[0]]
     if kind == "admonition":
         return ["Notes", "-----", rows[0][2].split("\n")[0]]
     title = _NUMPY_TITLES[kind]
@@ -443,7 +448,7 @@ def _bodies(importable: bool, expr_leaves: int, eval_annotations: bool = False):
         bases = st.lists(st.integers(0, 5).map(lambda i: ["earlier", i]), max_size=1)
     else:
         func_decos = st.lists(st.integers(0, len(FUNC_DECOS) - 1).map(lambda i: ["known", i]) | value.map(lambda e: ["expr", e]), max_size=2)
-        class_decos = st.lists(st.integers(0, len(CLASS_DECOS) - 1).map(lambda i: ["known", i]) | value.map(lambda e: ["expr", e]), max_size=2)
+        class_decos = st.lists(st.sampled_from((0, 1, 2, 2, 2)).map(lambda i: ["known", i]) | value.map(lambda e: ["expr", e]), max_size=2)
         bases = st.lists(st.integers(0, 5).map(lambda i: ["earlier", i]) | value.map(lambda e: ["expr", e]), max_size=2)
     # instance attributes assigned in `__init__`: half of the values mention a parameter of that `__init__`
     pref = st.integers(0, 7).map(lambda i: ["param", i])
@@ -470,12 +475,16 @@ def _bodies(importable: bool, expr_leaves: int, eval_annotations: bool = False):
                     # 0 plain, 1 property, 2 +setter, 3 +setter+deleter, 4 functools.cached_property  (methods only)
                     "prop": st.sampled_from((0, 0, 1, 2, 3, 4)) if method else st.just(0),
                     "selfattrs": st.lists(selfattr, max_size=2) if method else st.just([]),
+                    # statements nested in the body of `__init__` (Griffe visits that body): a def or a class
+                    "inner": st.lists(st.deferred(lambda: func(FUNC_NAMES, method=False) | cls(2)), max_size=1) if method else st.just([]),
                 },
             ),
         ).map(list)
 
     def cls(depth: int):
-        members = [attr, func(FUNC_NAMES + ("__init__", "__init__"), method=True)]
+        # annotated (and mostly documented) class attributes: they become dataclass fields / documented parameters
+        field = st.tuples(st.just("attr"), st.sampled_from(ATTR_NAMES), ann, st.none() | value, docstrings() | odoc).map(list)
+        members = [attr, field, func(FUNC_NAMES + ("__init__",), method=True)]
         if depth < 2:
             members.append(st.deferred(lambda: cls(depth + 1)))
         return st.tuples(
@@ -486,8 +495,10 @@ def _bodies(importable: bool, expr_leaves: int, eval_annotations: bool = False):
                     "bases": bases,
                     "kw": st.just([]) if importable else st.lists(st.tuples(st.sampled_from(("metaclass", "k")), value).map(list), max_size=1),
                     "decos": class_decos,
+                    # a dataclass whose fields feed a synthesised `__init__` (documented parameters); static flavour only
+                    "dc": st.just(False) if importable else st.booleans(),
                     "doc": odoc,
-                    "body": st.lists(st.one_of(members), max_size=4),
+                    "body": st.lists(st.one_of(members), max_size=3),
                 },
             ),
         ).map(list)
@@ -501,8 +512,9 @@ def _bodies(importable: bool, expr_leaves: int, eval_annotations: bool = False):
         st.tuples(st.just("from_missing"), st.sampled_from(("thing", "Missing", "A")), st.booleans()).map(list),
         st.tuples(st.just("all"), st.lists(st.integers(0, 7), max_size=3), st.just(False) if importable else st.booleans()).map(list),
     )
-    stmt = st.one_of(attr, func(FUNC_NAMES, method=False), cls(0), imports, imports)
-    return st.lists(stmt, max_size=5)
+    klass = cls(0)
+    stmt = st.sampled_from(("attr", "func", "class", "class", "import", "import")).flatmap({"attr": attr, "func": func(FUNC_NAMES, method=False), "class": klass, "import": imports}.__getitem__)
+    return st.lists(stmt, max_size=4)
 
 
 def modules(importable: bool, expr_leaves: int = 6):
@@ -695,7 +707,10 @@ class _ModRenderer:
         if in_class is not None:
             first = "cls" if "classmethod" in decos else (None if "staticmethod" in decos else "self")
         kw = "async def" if spec["async"] and not prop else "def"
-        for oparams, oret in spec["overloads"] if not prop else []:
+        # (an overloaded def nested in `__init__` crashes the visitor - TypeError on Function.overloads - which is a loading
+        # defect outside C08: nested functions get no overloads)
+        nested = in_class is None and indent > 0
+        for oparams, oret in spec["overloads"] if not (prop or nested) else []:
             s.add(indent, "@typing.overload")
             ret = f" -> {expr_text(oret)}" if oret is not None else ""
             s.add(indent, f"{kw} {name}({_params_text(oparams, first)}){ret}: ...")
@@ -712,7 +727,16 @@ class _ModRenderer:
             p = spec["params"]
             _CTX["params"] = [x[0] for x in list(p["po"]) + list(p["pk"]) + ([p["va"]] if p["va"] else []) + list(p["ko"]) + ([p["vk"]] if p["vk"] else [])]
             for sa in spec["selfattrs"]:
+                mark = len(s.lines)
                 self.attr(indent + 1, ["attr", sa[0], sa[1], sa[2], sa[3]], target="self." + sa[0])
+                wrote = wrote or len(s.lines) > mark
+            for inner in spec.get("inner", ()):
+                if "init-param-names" in _CTX["steer"] and inner[1] in EXPR_NAMES:
+                    inner = [inner[0], inner[1] + "_", inner[2]]  # known finding: names defined in `__init__` stay unmentioned
+                if inner[0] == "func":
+                    self.func(indent + 1, inner, None)
+                else:
+                    self.cls(indent + 1, inner, None)
                 wrote = True
         if not wrote:
             s.add(indent + 1, "...")
@@ -731,9 +755,15 @@ class _ModRenderer:
         decos = [self._deco(d, CLASS_DECOS) for d in spec["decos"]]
         if self.importable:
             decos = [d for d in decos if d != "dataclasses.dataclass"]
+        elif spec.get("dc"):
+            decos = ["dataclasses.dataclass", *[d for d in decos if d != "dataclasses.dataclass"]]
+            # the extension only synthesises `__init__` when the class does not define one
+            spec = {**spec, "body": [(["func", "f", st_[2]] if st_[0] == "func" and st_[1] == "__init__" else st_) for st_ in spec["body"]]}
         for d in decos:
             s.add(indent, "@" + d)
         args = [b for b in (self._base(b) for b in spec["bases"]) if b]
+        if "dataclasses.dataclass" in decos and "dataclass-inherited-fields" in _CTX["steer"]:
+            args = []  # known finding dataclass-inherited-fields: dataclasses do not inherit
         if self.importable:
             args = [a for a in dict.fromkeys(args) if a != name][:1]
         args += [f"{k}={expr_text(v)}" for k, v in spec["kw"]]
